@@ -288,10 +288,22 @@ class _Sink(object):
         pass
 
 
-def build(text, ticks=0, limit=20.0, acts=True, name="build.flo", files=None, verbosity=0):
+def build_kwargs(which):
+    """the optional arguments of Builder.build, by name: fixed, valid values"""
+    from ioflo.aid.odicting import odict
+    return {"metas": {"metas": [("name", "meta.name", odict(value="Test")), ("plan", "meta.plan", odict(value="p.flo"))]},
+            "preloads": {"preloads": [(".pre.load", odict(x=1, y=2))]},
+            "mode": {"mode": ["test"]},
+            "behaviors": {"behaviors": ["ioflo.base.doing"]},
+            "all": {"metas": [("name", "meta.name", odict(value="Test"))], "preloads": [(".pre.load", odict(value=5))],
+                    "mode": ["m"], "behaviors": ["ioflo.base.doing"]}}[which]
+
+
+def build(text, ticks=0, limit=20.0, acts=True, name="build.flo", files=None, verbosity=0, args=None):
     """Builder.build on `text` (real dispatch); canonical dump; optional bounded run.
     files: {name: text} written next to the script (targets of `load`); verbosity: console level during the build
-    (0 mute … 4 profuse; the output is discarded, the printing code runs)"""
+    (0 mute … 4 profuse; the output is discarded, the printing code runs); args: name of a set of optional
+    Builder.build arguments (build_kwargs)"""
     import traceback
     core.import_ioflo()
     from ioflo.base import building, excepting
@@ -311,17 +323,28 @@ def build(text, ticks=0, limit=20.0, acts=True, name="build.flo", files=None, ve
     else:
         path = write_script(text, name)
     b = building.Builder(fileName=path)
+    kw = build_kwargs(args) if args else {}
     con = consoling.getConsole()
     old = (con._verbosity, con._file)
     if verbosity:
         con._verbosity, con._file = verbosity, _Sink()
+    nofile = None
+    if files:
+        # a file that loads itself is read again and again until the process has no descriptors left (then build
+        # returns False); give it the customary 1024 rather than the container's 20000 so that this ends in time
+        import resource
+        nofile = resource.getrlimit(resource.RLIMIT_NOFILE)
+        if nofile[0] == resource.RLIM_INFINITY or nofile[0] > 1024:
+            resource.setrlimit(resource.RLIMIT_NOFILE, (1024, nofile[1]))
+        else:
+            nofile = None
     try:
         with time_limit(limit):
             if verbosity:       # some of the printing code uses print()
                 with contextlib.redirect_stdout(_Sink()):
-                    ok = b.build()
+                    ok = b.build(**kw)
             else:
-                ok = b.build()
+                ok = b.build(**kw)
     except core.HarnessTimeout:
         raise
     except Exception as ex:
@@ -333,6 +356,9 @@ def build(text, ticks=0, limit=20.0, acts=True, name="build.flo", files=None, ve
         return res
     finally:
         con._verbosity, con._file = old
+        if nofile is not None:
+            import resource
+            resource.setrlimit(resource.RLIMIT_NOFILE, nofile)
         for f in list(getattr(b, "files", [])) + [getattr(b, "currentFile", None)]:
             try:
                 if f is not None and not f.closed:      # a build left inside a loaded file: do not leak descriptors
